@@ -53,6 +53,7 @@ def needs_sep(a, b):
 
 
 def run(ctx, log):
+    progcheck.run_scale(ctx, log, ['names'])
     # comments of every content (several multi-byte characters, trailing backslashes, quotes, code) change nothing
     progcheck.run_comments(ctx, log, mode='tokens')
     rng = ctx.rng
@@ -150,6 +151,23 @@ def run(ctx, log):
         if o != "ERR Syntax":
             ctx.violate("an illegal character / unterminated string did not make the program a syntax error (input silently dropped)", source=s, observed=o[:200], expected="ERR Syntax")
     front.front_corr(ctx, bad, ("tok", "parse"), log, label="malformed")
+    # two string literals next to each other (the optional comma / semicolon left out): each is decoded on its own
+    esc = ["a\tb", "q\"r", "back\\slash", "é\n", "{}\t"]
+    plain = ["----", "", "é", "x y"]
+    adj, adj_exp = [], []
+    for e1 in esc + plain:
+        for e2 in esc + plain:
+            l1, l2 = nlast.quote(e1), nlast.quote(e2)
+            for tmpl, wrap in (("[%s %s]", "Expr(Array((String(\"%s\") String(\"%s\"))))"), ("%s %s", "Expr(String(\"%s\")) Expr(String(\"%s\"))"), ("[%s, %s]", "Expr(Array((String(\"%s\") String(\"%s\"))))")):
+                adj.append(tmpl % (l1, l2))
+                adj_exp.append("OK (" + wrap % (nlast.cps(e1), nlast.cps(e2)) + ")")
+    aobs = vlib.nlh("parse", [vlib.hexs(x) for x in adj], tag="c08adj")
+    for x, e, o in zip(adj, adj_exp, aobs):
+        ctx.seen(("adjacent-strings", x))
+        ctx.count("adjacent-string-literals")
+        if o != e:
+            ctx.violate("a string literal next to another one does not denote the characters written between its quotes", source=x, observed=o[:200], expected=e[:200])
+    front.front_corr(ctx, adj[:300], ("tok", "parse"), log, label="adjacent-strings")
     # integer literals: every spelling inside the 61-bit range denotes its number (leading zeros included), every
     # one beyond it is rejected whatever it is congruent to modulo a power of two
     inside = [0, 1, 9, 10, 255, 256, 65535, 65536, 2 ** 31 - 1, 2 ** 31, 2 ** 32, 2 ** 53, 2 ** 59, 2 ** 60 - 2, 2 ** 60 - 1] + [rng.randrange(2 ** 60) for _ in range(60)]
